@@ -26,7 +26,7 @@ var c20Types = []uint64{
 
 func c20Lens() []int {
 	if verifrt.Thorough() {
-		return []int{0, 1, 2, 3, 5, 9, 12, 16, 24}
+		return []int{0, 1, 2, 3, 5, 9, 12}
 	}
 	return []int{0, 1, 3, 9}
 }
